@@ -141,6 +141,12 @@ def make_harness(shapes: list[Any], shared: bool = False, prepare=None, pred_obj
     def harness(e):
         reset_all()
         extra_info: dict[str, Any] = {}
+
+        def fail_(sig, **kw):
+            # (a cause that sits in a prehistory is named in the signature: memo attributes set on node classes
+            # outlive the path, and the scenarios kept for the replay must include self-contained ones)
+            e.fail(sig + (":after-bare-base-class-nodes-walked" if extra_info.get("predecessor") == "bare-base-class-nodes-walked-first" else ""), **kw)
+
         nonlocal_shapes = shapes
         if prepare is not None:
             nonlocal_shapes, extra_info = prepare(e)
@@ -150,9 +156,16 @@ def make_harness(shapes: list[Any], shared: bool = False, prepare=None, pred_obj
             # ids are unique among registered nodes only: an equal tree was built, walked in every
             # way (also implicitly: detach(), ==, Tree) and has left the registry, but is still
             # referenced when the tree under test -- same ids, other objects -- is built and walked
-            how = e.pick(["detached", "root-replaced-with-equal-content", "children-differ-below-equal-root"], "predecessor")
+            how = e.pick(["detached", "root-replaced-with-equal-content", "children-differ-below-equal-root", "bare-base-class-nodes-walked-first"], "predecessor")
             extra_info["predecessor"] = how
             from models.zoo import positions_of, with_origin
+
+            if how.startswith("bare-base"):
+                # instances of exactly the childless base classes (VBase, VLeaf next to its subclasses) are met as
+                # descendants by every kind of walk before any node of the tree under test exists
+                for first in (CLASSES["VReq"](child=CLASSES["VBase"]()), CLASSES["VMany"](items=(CLASSES["VLeaf"](v=77), CLASSES["VBase"]()))):
+                    list(first.dfs()), list(first.dfs(bottom_up=True)), list(first.bfs()), list(first.gather(CLASSES["VBase"])), first == first, first.to_tree()
+                    first.detach()
 
             old_recipe = recipe
             if how == "children-differ-below-equal-root":
@@ -226,16 +239,16 @@ def make_harness(shapes: list[Any], shared: bool = False, prepare=None, pred_obj
             want = [T.key(p) for p in ref(recipe, root, o_filter, o_prune)]
             if got != want:
                 if falsy and got == [T.key(p) for p in ref(recipe, root, o_filter, o_prune, True)]:
-                    e.fail("falsy-single-child-skipped:dfs", scenario=explain(got, want, scenario))
-                e.fail(f"stream-mismatch:dfs:{'post' if bu else 'pre'}", scenario=explain(got, want, scenario))
+                    fail_("falsy-single-child-skipped:dfs", scenario=explain(got, want, scenario))
+                fail_(f"stream-mismatch:dfs:{'post' if bu else 'pre'}", scenario=explain(got, want, scenario))
             _check_positions(e, root.dfs(bottom_up=bu), scenario)
         elif mode == "bfs":
             got = _stream(root.bfs(prune=prune_cb if with_prune else None, filter=filter_cb if with_filter else None))
             want = [T.key(p) for p in T.level_order(recipe, root, o_filter, o_prune)]
             if got != want:
                 if falsy and got == [T.key(p) for p in T.level_order(recipe, root, o_filter, o_prune, True)]:
-                    e.fail("falsy-single-child-skipped:bfs", scenario=explain(got, want, scenario))
-                e.fail("stream-mismatch:bfs", scenario=explain(got, want, scenario))
+                    fail_("falsy-single-child-skipped:bfs", scenario=explain(got, want, scenario))
+                fail_("stream-mismatch:bfs", scenario=explain(got, want, scenario))
             _check_positions(e, root.bfs(), scenario)
         elif mode == "gather":
             names = e.pick(gather_classes, "classes")
@@ -261,14 +274,14 @@ def make_harness(shapes: list[Any], shared: bool = False, prepare=None, pred_obj
             want2 = [id(p[0]) for p in T.pre_order(recipe, root, cls_ok2, lambda pos: False)]
             if [id(n) for n in again] != want2:
                 scenario.update(second_call_exact_type=not ex, got_second=[type(n).__name__ for n in again], expected_second_count=len(want2))
-                e.fail("gather-depends-on-an-earlier-gather", scenario=scenario)
+                fail_("gather-depends-on-an-earlier-gather", scenario=scenario)
             got = [id(n) for n in got_nodes]
             want = mk(False)
             if got != want:
                 scenario.update(got=[type(n).__name__ for n in got_nodes], expected_count=len(want))
                 if falsy and got == mk(True):
-                    e.fail("falsy-single-child-skipped:gather", scenario=scenario)
-                e.fail("stream-mismatch:gather", scenario=scenario)
+                    fail_("falsy-single-child-skipped:gather", scenario=scenario)
+                fail_("stream-mismatch:gather", scenario=scenario)
         else:
             # children / get_child_nodes / get_child_nodes_with_field on every node
             for pos in [(root, None, None, None, recipe)] + positions:
@@ -288,8 +301,8 @@ def make_harness(shapes: list[Any], shared: bool = False, prepare=None, pred_obj
                     d1 = [id(p[0]) for p in want_def]
                     d3 = [(id(p[0]), p[2], p[3]) for p in want_def]
                     if falsy and got1 == d1 and got2 == d1 and got3 == d3:
-                        e.fail("falsy-single-child-skipped:accessors", scenario=scenario)
-                    e.fail("stream-mismatch:accessors", scenario=scenario)
+                        fail_("falsy-single-child-skipped:accessors", scenario=scenario)
+                    fail_("stream-mismatch:accessors", scenario=scenario)
         e.distinct((shape_no, mode, len(pbits), len(fbits), tuple(extra_info.values())))
         return scenario
 
